@@ -331,7 +331,7 @@ func (u *Unit) applyContract(fr *Frame, st *State, x *ssa.Call, fn *ssa.Function
 		if cl.Kind != "modifies" {
 			continue
 		}
-		if cl.ModsAny {
+		if cl.ModsAny || cl.frameDropped() {
 			// every heap component may have changed
 			all := map[string]bool{"BIG": true}
 			for _, k := range u.eng.dataComps {
@@ -703,7 +703,7 @@ func (u *Unit) contractMods(c *Contract, f *ssa.Function, set map[string]bool) {
 		if cl.Kind != "modifies" {
 			continue
 		}
-		if cl.ModsAny {
+		if cl.ModsAny || cl.frameDropped() {
 			set["*"] = true
 		}
 		for _, m := range cl.Mods {
